@@ -173,7 +173,7 @@ Definition rfc_replace (doc : jv) (p : list byte) (v : jv) : option jv := edit_a
 
 Definition rfc_test (doc : jv) (p : list byte) (v : jv) : option jv :=
   match spec_get doc p with
-  | Some (_, n) => if rfc_equal n v then Some doc else None
+  | Some (_, n) => if rfc_equal v n then Some doc else None
   | None => None
   end.
 
